@@ -18,6 +18,7 @@ package xhttp
 
 import (
 	"bufio"
+	"errors"
 	"fmt"
 	"io"
 	"net/http"
@@ -49,8 +50,11 @@ func (*requestCodec) HandleRead(ctx netty.InboundContext, message netty.Message)
 			// discard what the handler left unread of the body, otherwise
 			// it would be parsed as the next request.
 			if nil != request.Body {
-				_, err = io.Copy(io.Discard, request.Body)
-				utils.Assert(err)
+				// a handler that has closed the body already (the usual defer
+				// r.Body.Close()) has drained it by doing so.
+				if _, err = io.Copy(io.Discard, request.Body); !errors.Is(err, http.ErrBodyReadAfterClose) {
+					utils.Assert(err)
+				}
 				_ = request.Body.Close()
 			}
 		}
